@@ -261,6 +261,25 @@ def rule_after_baseline(ctx):
             continue  # empty initialisation
         else:
             db_stores.append((k, mg, uses_run))
+    # an input that was verified at run start is compared whatever its state is now: a state filter on the run-start
+    # arm drops exactly the inputs that vanished or were outdated while the command ran
+    def state_filtered(k):
+        kind, v, guards = stores[k]
+        def narrows(cond):
+            return _mentions(cond, lambda x: isinstance(x, ast.Attribute) and x.attr == "state") and not (isinstance(cond, ast.BoolOp) and isinstance(cond.op, ast.Or) and any(_mentions(o, run_attr) for o in cond.values))
+
+        if any(narrows(t) and pol for t, pol in guards):
+            return True
+        for m in ast.walk(v):
+            if isinstance(m, (ast.DictComp, ast.ListComp, ast.GeneratorExp, ast.SetComp)):
+                for g in m.generators:
+                    for cond in g.ifs:
+                        if _mentions(cond, lambda x: isinstance(x, ast.Attribute) and x.attr == "state") and not (isinstance(cond, ast.BoolOp) and isinstance(cond.op, ast.Or) and any(_mentions(o, run_attr) for o in cond.values)):
+                            return True
+        return False
+
+    for k in run_stores:
+        ctx.check(not state_filtered(k), cf.fq, "the run-start arm is not filtered by the current state of the input", f"write #{k} to {var} takes the run-start hash only for inputs that are still BUILT/CONFIRMED: an input that another step has meanwhile recorded as MISSING or OUTDATED is neither re-checked nor part of the new step hash, and the step succeeds", "no state test on the run-start arm", where=ctx.where_of(cf, stores[k][1]))
     ctx.check(bool(run_stores), cf.fq, f"{var} takes values from run.{attr}", f"the 'before' hashes never come from run.{attr}: an input whose record another step updated while this command ran is compared with the updated hash and the step succeeds on content it did not read", "run-start hashes used")
     for k, mg, uses_run in db_stores:
         later_override = any(j > k and stores[j][0] in ("update", "item") and j in run_stores and membership_guard(stores[j][2]) >= 0 and not stores[j][2] for j in range(len(stores)))
@@ -516,7 +535,7 @@ RULES = [
     Rule("R-C03-5", "amend classifies every input", rule_amend_classification, min_instances=12),
     Rule("R-C03-6", "defer keeps the step wakeable", rule_defer_keeps_wakeable, min_instances=4),
     Rule("R-C03-7", "freshness test orientation and clock bookkeeping", rule_freshness, min_instances=7),
-    Rule("R-C03-9", "the comparison after the command uses the hashes verified at run start", rule_after_baseline, min_instances=9),
+    Rule("R-C03-9", "the comparison after the command uses the hashes verified at run start", rule_after_baseline, min_instances=10),
     Rule("R-C03-8", "amend-time, defer-time and report-time predicates agree", rule_three_predicates, min_instances=20),
 ]
 
@@ -535,6 +554,7 @@ MUTANTS = [
     Mutant("amended-inputs-without-baseline", "director.py", in_function("DirectorHandler.amend_step", replace_once("        self.executor.note_input_hashes(job_i, inp_hashes)\n", "")), ("R-C03-9",)),
     Mutant("amend-overrides-run-start-hashes", "executor.py", in_function("Executor.note_input_hashes", replace_once("            run.start_inp_hashes.setdefault(path, inp_hash)\n", "            run.start_inp_hashes[path] = inp_hash\n")), ("R-C03-9",)),
     Mutant("baseline-before-promoted-hashes", "director.py", in_function("DirectorHandler.amend_step", lambda t: t.replace("        # The step may read the amended inputs from here on.\n        # What they look like now is what the check after the command has to compare with.\n        async with self.db:\n            inp_hashes = {\n                record.path: record.hash\n                for record in step.inp_paths()\n                if record.state in (FileState.BUILT, FileState.CONFIRMED)\n            }\n        self.executor.note_input_hashes(job_i, inp_hashes)\n", "", 1).replace("        if to_check:\n", "        async with self.db:\n            inp_hashes = {\n                record.path: record.hash\n                for record in step.inp_paths()\n                if record.state in (FileState.BUILT, FileState.CONFIRMED)\n            }\n        self.executor.note_input_hashes(job_i, inp_hashes)\n        if to_check:\n", 1) if "self.executor.note_input_hashes(job_i, inp_hashes)" in t and "        if to_check:\n" in t else None), ("R-C03-9",)),
+    Mutant("run-start-arm-state-filtered", "executor.py", in_function("Executor._compute_full_step_hash", replace_once('            inp_hashes = {}\n            for rec in run.step.inp_paths():\n                if rec.path in run.start_inp_hashes:\n                    inp_hashes[rec.path] = run.start_inp_hashes[rec.path]\n                elif rec.state in (FileState.BUILT, FileState.CONFIRMED):\n                    inp_hashes[rec.path] = rec.hash\n', "            inp_hashes = {\n                rec.path: run.start_inp_hashes.get(rec.path, rec.hash)\n                for rec in run.step.inp_paths()\n                if rec.state in (FileState.BUILT, FileState.CONFIRMED)\n            }\n")), ("R-C03-9",)),
     Mutant("await-in-completion", "executor.py", in_function("Executor.execute_job", replace_once("            run.interrupted_defer = step.mark_completed(new_hash, wants_defer)\n", "            run.interrupted_defer = step.mark_completed(new_hash, wants_defer)\n            await asyncio.sleep(0)\n")), ("R-C03-4",)),
     Mutant("stop-clock-after-region", "executor.py", in_function("Executor.execute_job", lambda s: s.replace("            self.scheduler.record_run_stopped(step.i, succeeded=new_hash is not None)\n", "", 1).replace("        self._report_step_counts()\n\n        # Report the result of running the step\n", "        self.scheduler.record_run_stopped(step.i, succeeded=new_hash is not None)\n        self._report_step_counts()\n\n        # Report the result of running the step\n", 1) if "# Report the result of running the step" in s else None), ("R-C03-4",)),
     Mutant("unconfirmed-accepted", "workflow.py", in_function("Workflow.amend_step", replace_once("            elif availability == Availability.UNCONFIRMED:\n                unconfirmed.add(info.file)\n", "            elif availability == Availability.UNCONFIRMED:\n                pass\n")), ("R-C03-5",)),
